@@ -364,6 +364,12 @@ class OrderedRingBuffer(Generic[FloatArray]):
         if start >= end:
             return np.array([]) if isinstance(self._buffer, np.ndarray) else []
 
+        # A window that ends before the next sample slot starts contains no samples.
+        # This needs an explicit check, because equal start and end positions mean
+        # "the whole buffer" for `_wrapped_buffer_window()`.
+        if self.normalize_timestamp(start) >= self.normalize_timestamp(end):
+            return np.array([]) if isinstance(self._buffer, np.ndarray) else []
+
         start_pos = self.to_internal_index(start)
         end_pos = self.to_internal_index(end)
 
